@@ -147,9 +147,12 @@ func (s *Server) followCheckSome(addr string, followc int, auth string,
 	if int(s.followc.Load()) != followc {
 		return 0, errNoLongerFollowing
 	}
-	if s.aofsz < checksumsz {
+	if s.aofsz == 0 {
+		// nothing of our own, start from the beginning of the leader's log
 		return 0, nil
 	}
+	// the checksums below read the file, so it must hold all of our log
+	s.flushAOF(false)
 
 	conn, err := DialTimeout(addr, time.Second*2)
 	if err != nil {
@@ -166,9 +169,22 @@ func (s *Server) followCheckSome(addr string, followc int, auth string,
 	min := int64(0)
 	max := int64(s.aofsz) - checksumsz
 	limit := int64(s.aofsz)
-	match, err := s.matchChecksums(conn, min, checksumsz)
-	if err != nil {
-		return 0, err
+	var match bool
+	if s.aofsz < checksumsz {
+		// Too small for the block search. The log is only kept when all of
+		// it is a prefix of the leader's log.
+		whole, err := s.matchChecksums(conn, 0, int64(s.aofsz))
+		if err != nil {
+			return 0, err
+		}
+		if whole {
+			pos = int64(s.aofsz)
+		}
+	} else {
+		match, err = s.matchChecksums(conn, min, checksumsz)
+		if err != nil {
+			return 0, err
+		}
 	}
 
 	if match {
@@ -194,12 +210,20 @@ func (s *Server) followCheckSome(addr string, followc int, auth string,
 	fullpos := pos
 	fname := s.aof.Name()
 	if pos == 0 {
+		// Nothing in common with the leader's log. Start over with an empty
+		// log and an empty dataset: whatever this server held before does not
+		// belong to the leader.
 		s.aof.Close()
 		s.aof, err = os.Create(fname)
 		if err != nil {
 			log.Fatalf("could not recreate aof, possible data loss. %s", err.Error())
 			return 0, err
 		}
+		if _, _, err := s.cmdFLUSHDB(&Message{Args: []string{"flushdb"}}); err != nil {
+			return 0, err
+		}
+		s.aofbuf = s.aofbuf[:0]
+		s.aofsz = 0
 		return 0, nil
 	}
 
